@@ -5,22 +5,29 @@
 struct VArg { int id; VArg(); VArg(const VArg &); VArg(VArg &&); VArg & operator=(const VArg &); VArg & operator=(VArg &&); ~VArg(); };
 struct Pol {
 	using Threading = eventpp::MultipleThreading;
-	static int getEvent(const VArg & a);
+	static int getEvent(VArg a);      // by value: moving the caller's argument into it would be visible
 	using Mixins = eventpp::MixinList<eventpp::MixinFilter>;
 };
 struct PolX {
 	using Threading = eventpp::MultipleThreading;
 	using ArgumentPassingMode = eventpp::ArgumentPassingExcludeEvent;
 };
+struct PolY {
+	using Threading = eventpp::MultipleThreading;
+	using ArgumentPassingMode = eventpp::ArgumentPassingExcludeEvent;
+	static int getEvent(int first, VArg a);      // exclude-event form WITH a user policy
+};
 using ED = eventpp::EventDispatcher<int, void(VArg), Pol>;
+using EDY = eventpp::EventDispatcher<int, void(VArg), PolY>;
 using EDX = eventpp::EventDispatcher<int, void(VArg), PolX>;
 struct UserEach { void operator()(const ED::Handle &, const ED::Callback &) const; };
 struct UserEachIf { bool operator()(const ED::Handle &, const ED::Callback &) const; };
-void use(ED & d, ED & d2, EDX & x, VArg a, ED::Callback & cb, ED::Handle & h, UserEach & f, UserEachIf & g, ED::FilterHandle & fh) {
+void use(ED & d, ED & d2, EDX & x, EDY & y, VArg a, ED::Callback & cb, ED::Handle & h, UserEach & f, UserEachIf & g, ED::FilterHandle & fh) {
 	ED e0; ED e1(d); ED e2(std::move(d2)); e0 = d; e0 = std::move(e1); e0.swap(e2); swap(e0, e2);
 	d.appendListener(1, cb); d.prependListener(1, cb); d.insertListener(1, cb, h); d.removeListener(1, h);
 	d.hasAnyListener(1); d.ownsHandle(1, h); d.forEach(1, f); d.forEachIf(1, g);
 	d.dispatch(a); d.dispatch(VArg());
 	x.dispatch(1, a);
+	y.dispatch(1, a);
 	d.removeFilter(fh);
 }
